@@ -118,6 +118,12 @@ theorem Bonded.symm {bonds : List (Nat × Nat)} {a b : Nat} (h : Bonded bonds a 
 theorem bonded_comm (bonds : List (Nat × Nat)) (a b : Nat) : Bonded bonds a b ↔ Bonded bonds b a :=
   ⟨Bonded.symm, Bonded.symm⟩
 
+/-- no bond joins an atom to itself -/
+def NoSelfLoops (bonds : List (Nat × Nat)) : Prop := ∀ e ∈ bonds, e.1 ≠ e.2
+
+theorem bonded_self_false (bonds : List (Nat × Nat)) (hns : NoSelfLoops bonds) (a : Nat) : ¬ Bonded bonds a a := by
+  rintro (h | h) <;> exact hns _ h rfl
+
 theorem mem_neighbours (bonds : List (Nat × Nat)) (n m : Nat) :
     m ∈ neighbours bonds n ↔ Bonded bonds n m := by
   unfold neighbours Bonded
@@ -275,5 +281,600 @@ theorem nodup_calcAngles (bonds : List (Nat × Nat)) : (calcAngles bonds).Nodup 
   rw [e'] at e
   simp only [List.cons.injEq, and_true] at e
   exact hne e.2.1
+
+/-! ### edges (networkx `g.edges`) -/
+
+theorem mem_edgesFrom_cons (adj : Nat → List Nat) (n : Nat) (rest seen : List Nat) (a b : Nat) :
+    (a, b) ∈ edgesFrom adj (n :: rest) seen ↔
+      (a = n ∧ b ∈ adj n ∧ b ∉ seen) ∨ (a, b) ∈ edgesFrom adj rest (n :: seen) := by
+  simp only [edgesFrom, List.mem_append, List.mem_map, List.mem_filter, Prod.mk.injEq]
+  constructor
+  · rintro (⟨m, ⟨hm, hs⟩, rfl, rfl⟩ | h)
+    · exact Or.inl ⟨rfl, hm, by simpa using hs⟩
+    · exact Or.inr h
+  · rintro (⟨rfl, hm, hs⟩ | h)
+    · exact Or.inl ⟨b, ⟨hm, by simpa using hs⟩, rfl, rfl⟩
+    · exact Or.inr h
+
+theorem edgesFrom_sound (adj : Nat → List Nat) (ns seen : List Nat) (a b : Nat)
+    (h : (a, b) ∈ edgesFrom adj ns seen) : a ∈ ns ∧ b ∈ adj a ∧ b ∉ seen := by
+  induction ns generalizing seen with
+  | nil => simp [edgesFrom] at h
+  | cons n rest ih =>
+    rcases (mem_edgesFrom_cons adj n rest seen a b).mp h with ⟨rfl, hm, hs⟩ | h'
+    · exact ⟨List.mem_cons_self, hm, hs⟩
+    · obtain ⟨h1, h2, h3⟩ := ih (n :: seen) h'
+      exact ⟨List.mem_cons_of_mem _ h1, h2, fun hm => h3 (List.mem_cons_of_mem _ hm)⟩
+
+theorem edgesFrom_asymm (adj : Nat → List Nat) (ns seen : List Nat) (a b : Nat)
+    (h1 : (a, b) ∈ edgesFrom adj ns seen) (h2 : (b, a) ∈ edgesFrom adj ns seen) : a = b := by
+  induction ns generalizing seen with
+  | nil => simp [edgesFrom] at h1
+  | cons n rest ih =>
+    rcases (mem_edgesFrom_cons adj n rest seen a b).mp h1 with ⟨ha, _, _⟩ | h1'
+    · rcases (mem_edgesFrom_cons adj n rest seen b a).mp h2 with ⟨hb, _, _⟩ | h2'
+      · rw [ha, hb]
+      · exact absurd (by rw [ha]; exact List.mem_cons_self) (edgesFrom_sound adj rest (n :: seen) b a h2').2.2
+    · rcases (mem_edgesFrom_cons adj n rest seen b a).mp h2 with ⟨hb, _, _⟩ | h2'
+      · exact absurd (by rw [hb]; exact List.mem_cons_self) (edgesFrom_sound adj rest (n :: seen) a b h1').2.2
+      · exact ih (n :: seen) h1' h2'
+
+theorem edgesFrom_complete (adj : Nat → List Nat) (ns seen : List Nat) (a b : Nat)
+    (ha : a ∈ ns) (hb : b ∈ ns) (hab : b ∈ adj a) (hba : a ∈ adj b) (has : a ∉ seen) (hbs : b ∉ seen) :
+    (a, b) ∈ edgesFrom adj ns seen ∨ (b, a) ∈ edgesFrom adj ns seen := by
+  induction ns generalizing seen with
+  | nil => simp at ha
+  | cons n rest ih =>
+    by_cases ea : a = n
+    · exact Or.inl ((mem_edgesFrom_cons _ _ _ _ _ _).mpr (Or.inl ⟨ea, ea ▸ hab, hbs⟩))
+    · by_cases eb : b = n
+      · exact Or.inr ((mem_edgesFrom_cons _ _ _ _ _ _).mpr (Or.inl ⟨eb, eb ▸ hba, has⟩))
+      · have ha' : a ∈ rest := by
+          rcases List.mem_cons.mp ha with h | h
+          · exact absurd h ea
+          · exact h
+        have hb' : b ∈ rest := by
+          rcases List.mem_cons.mp hb with h | h
+          · exact absurd h eb
+          · exact h
+        have has' : a ∉ n :: seen := by
+          intro h; rcases List.mem_cons.mp h with h | h
+          · exact ea h
+          · exact has h
+        have hbs' : b ∉ n :: seen := by
+          intro h; rcases List.mem_cons.mp h with h | h
+          · exact eb h
+          · exact hbs h
+        rcases ih (n :: seen) ha' hb' has' hbs' with h | h
+        · exact Or.inl ((mem_edgesFrom_cons _ _ _ _ _ _).mpr (Or.inr h))
+        · exact Or.inr ((mem_edgesFrom_cons _ _ _ _ _ _).mpr (Or.inr h))
+
+theorem nodup_edgesFrom (adj : Nat → List Nat) (hadj : ∀ n, (adj n).Nodup) (ns seen : List Nat)
+    (hnd : ns.Nodup) : (edgesFrom adj ns seen).Nodup := by
+  induction ns generalizing seen with
+  | nil => simp [edgesFrom]
+  | cons n rest ih =>
+    have hn := (List.nodup_cons.mp hnd).1
+    have hrest := (List.nodup_cons.mp hnd).2
+    simp only [edgesFrom]
+    refine List.nodup_append.mpr ⟨?_, ih (n :: seen) hrest, ?_⟩
+    · have hf : ((adj n).filter (fun m => !seen.contains m)).Nodup := List.Pairwise.filter _ (hadj n)
+      exact List.Pairwise.map _ (fun a b hab e => hab (by simpa using e)) hf
+    · intro p hp q hq e
+      obtain ⟨m, _, rfl⟩ := List.mem_map.mp hp
+      subst e
+      exact hn (edgesFrom_sound adj rest (n :: seen) n m hq).1
+
+theorem graphEdges_sound (bonds : List (Nat × Nat)) (a b : Nat) (h : (a, b) ∈ graphEdges bonds) :
+    Bonded bonds a b :=
+  (mem_neighbours bonds a b).mp (edgesFrom_sound _ _ _ a b h).2.1
+
+theorem graphEdges_complete (bonds : List (Nat × Nat)) (a b : Nat) (h : Bonded bonds a b) :
+    (a, b) ∈ graphEdges bonds ∨ (b, a) ∈ graphEdges bonds := by
+  unfold graphEdges
+  refine edgesFrom_complete _ _ _ a b ((mem_nodes bonds a).mpr ⟨b, h⟩) ((mem_nodes bonds b).mpr ⟨a, h.symm⟩)
+    ((mem_neighbours bonds a b).mpr h) ((mem_neighbours bonds b a).mpr h.symm) ?_ ?_ <;> simp
+
+theorem graphEdges_asymm (bonds : List (Nat × Nat)) (a b : Nat)
+    (h1 : (a, b) ∈ graphEdges bonds) (h2 : (b, a) ∈ graphEdges bonds) : a = b :=
+  edgesFrom_asymm _ _ _ a b h1 h2
+
+theorem nodup_graphEdges (bonds : List (Nat × Nat)) : (graphEdges bonds).Nodup :=
+  nodup_edgesFrom _ (nodup_neighbours bonds) _ _ (nodup_nodes bonds)
+
+/-! ### dihedrals -/
+
+theorem mem_dihedralsAt (bonds : List (Nat × Nat)) (e : Nat × Nat) (t : List Nat) :
+    t ∈ dihedralsAt bonds e ↔
+      ∃ i l, i ∈ neighbours bonds e.1 ∧ i ≠ e.2 ∧ l ∈ neighbours bonds e.2 ∧ l ≠ e.1 ∧ t = [i, e.1, e.2, l] := by
+  unfold dihedralsAt
+  simp only [List.mem_flatMap, List.mem_map, (nodup_neighbours bonds _).mem_erase_iff]
+  constructor
+  · rintro ⟨i, ⟨h1, h2⟩, l, ⟨h3, h4⟩, rfl⟩; exact ⟨i, l, h2, h1, h4, h3, rfl⟩
+  · rintro ⟨i, l, h2, h1, h4, h3, rfl⟩; exact ⟨i, ⟨h1, h2⟩, l, ⟨h3, h4⟩, rfl⟩
+
+theorem mem_calcDihedrals (bonds : List (Nat × Nat)) (i j k l : Nat) :
+    [i, j, k, l] ∈ calcDihedrals bonds ↔
+      (j, k) ∈ graphEdges bonds ∧ Bonded bonds j i ∧ i ≠ k ∧ Bonded bonds k l ∧ l ≠ j := by
+  unfold calcDihedrals
+  rw [List.mem_flatMap]
+  constructor
+  · rintro ⟨⟨a, b⟩, he, ht⟩
+    obtain ⟨i', l', h1, h2, h3, h4, e⟩ := (mem_dihedralsAt bonds (a, b) _).mp ht
+    simp only [List.cons.injEq, and_true] at e
+    obtain ⟨rfl, rfl, rfl, rfl⟩ := e
+    exact ⟨he, (mem_neighbours _ _ _).mp h1, h2, (mem_neighbours _ _ _).mp h3, h4⟩
+  · rintro ⟨he, h1, h2, h3, h4⟩
+    exact ⟨(j, k), he, (mem_dihedralsAt bonds (j, k) _).mpr
+      ⟨i, l, (mem_neighbours _ _ _).mpr h1, h2, (mem_neighbours _ _ _).mpr h3, h4, rfl⟩⟩
+
+theorem calcDihedrals_shape (bonds : List (Nat × Nat)) (t : List Nat) (h : t ∈ calcDihedrals bonds) :
+    ∃ i j k l, t = [i, j, k, l] := by
+  unfold calcDihedrals at h
+  obtain ⟨e, _, ht⟩ := List.mem_flatMap.mp h
+  obtain ⟨i, l, _, _, _, _, e'⟩ := (mem_dihedralsAt bonds e t).mp ht
+  exact ⟨i, e.1, e.2, l, e'⟩
+
+theorem nodup_dihedralsAt (bonds : List (Nat × Nat)) (e : Nat × Nat) : (dihedralsAt bonds e).Nodup := by
+  unfold dihedralsAt List.Nodup
+  rw [List.pairwise_flatMap]
+  have h1 : ((neighbours bonds e.1).erase e.2).Nodup :=
+    List.Pairwise.sublist List.erase_sublist (nodup_neighbours bonds e.1)
+  have h2 : ((neighbours bonds e.2).erase e.1).Nodup :=
+    List.Pairwise.sublist List.erase_sublist (nodup_neighbours bonds e.2)
+  refine ⟨fun a _ => ?_, ?_⟩
+  · exact List.Pairwise.map _ (fun x y hxy e => hxy (by simpa using e)) h2
+  · refine List.Pairwise.imp ?_ h1
+    intro a1 a2 hne x hx y hy e
+    obtain ⟨_, _, rfl⟩ := List.mem_map.mp hx
+    obtain ⟨_, _, rfl⟩ := List.mem_map.mp hy
+    simp only [List.cons.injEq, and_true] at e
+    exact hne e.1
+
+theorem nodup_calcDihedrals (bonds : List (Nat × Nat)) : (calcDihedrals bonds).Nodup := by
+  unfold calcDihedrals List.Nodup
+  rw [List.pairwise_flatMap]
+  refine ⟨fun e _ => nodup_dihedralsAt bonds e, ?_⟩
+  refine List.Pairwise.imp ?_ (nodup_graphEdges bonds)
+  intro e1 e2 hne x hx y hy e
+  obtain ⟨_, _, _, _, _, _, rfl⟩ := (mem_dihedralsAt bonds e1 x).mp hx
+  obtain ⟨_, _, _, _, _, _, e'⟩ := (mem_dihedralsAt bonds e2 y).mp hy
+  rw [e'] at e
+  simp only [List.cons.injEq, and_true] at e
+  exact hne (Prod.ext e.2.1 e.2.2.1)
+
+/-! ### typekey -/
+
+section typekey
+variable {α : Type} [LT α] [DecidableEq α] [DecidableLT α]
+
+theorem typekey_cases (t : List α) : typekey t = t ∨ typekey t = t.reverse := by
+  unfold typekey; split
+  · exact Or.inr rfl
+  · exact Or.inl rfl
+
+theorem typekey_reverse [Std.Trichotomous (α := α) (· < ·)] [Std.Asymm (α := α) (· < ·)] (t : List α) :
+    typekey t.reverse = typekey t := by
+  unfold typekey
+  rw [List.reverse_reverse]
+  by_cases h1 : t.reverse ≤ t
+  · by_cases h2 : t ≤ t.reverse
+    · have := List.le_antisymm h1 h2
+      simp [this]
+    · simp [h1, h2]
+  · have h2 : t ≤ t.reverse := by
+      rcases List.le_total t t.reverse with h | h
+      · exact h
+      · exact absurd h h1
+    simp [h1, h2]
+
+theorem typekey_eq_iff [Std.Trichotomous (α := α) (· < ·)] [Std.Asymm (α := α) (· < ·)] (t u : List α) :
+    typekey t = typekey u ↔ t = u ∨ t = u.reverse := by
+  constructor
+  · intro h
+    rcases typekey_cases t with ht | ht <;> rcases typekey_cases u with hu | hu <;> rw [ht, hu] at h
+    · exact Or.inl h
+    · exact Or.inr h
+    · exact Or.inr (List.reverse_eq_iff.mp h)
+    · exact Or.inl (List.reverse_inj.mp h)
+  · rintro (rfl | rfl)
+    · rfl
+    · exact typekey_reverse u
+
+end typekey
+
+/-! ### typing: first-seen numbering of unique keys -/
+
+/-- the terms paired with their type ids, for a key function: what all three assign functions compute -/
+def typedBy {κ} [DecidableEq κ] (key : List Nat → κ) (ts : List (List Nat)) : List (List Nat × Nat) :=
+  ts.map (fun t => (t, typeIndex (dedup (ts.map key)) (key t)))
+
+theorem zip_map_self {α β} (l : List α) (f : α → β) : l.zip (l.map f) = l.map (fun x => (x, f x)) := by
+  induction l with
+  | nil => rfl
+  | cons x xs ih => simp [ih]
+
+theorem zip_typed {κ} [DecidableEq κ] (key : List Nat → κ) (ts : List (List Nat)) :
+    ts.zip ((ts.map key).map (typeIndex (dedup (ts.map key)))) = typedBy key ts := by
+  rw [List.map_map, zip_map_self]; rfl
+
+section typing
+variable {κ : Type} [DecidableEq κ] (key : List Nat → κ) (ts : List (List Nat))
+
+theorem mem_typedBy (t : List Nat) (y : Nat) :
+    (t, y) ∈ typedBy key ts ↔ t ∈ ts ∧ y = typeIndex (dedup (ts.map key)) (key t) := by
+  unfold typedBy
+  rw [List.mem_map]
+  constructor
+  · rintro ⟨t', ht, e⟩; cases e; exact ⟨ht, rfl⟩
+  · rintro ⟨ht, rfl⟩; exact ⟨t, ht, rfl⟩
+
+theorem key_mem_uniq (t : List Nat) (ht : t ∈ ts) : key t ∈ dedup (ts.map key) :=
+  (mem_dedup _ _).mpr (List.mem_map.mpr ⟨t, ht, rfl⟩)
+
+theorem typedBy_same_iff (t1 t2 : List Nat) (y1 y2 : Nat)
+    (h1 : (t1, y1) ∈ typedBy key ts) (h2 : (t2, y2) ∈ typedBy key ts) : y1 = y2 ↔ key t1 = key t2 := by
+  obtain ⟨m1, rfl⟩ := (mem_typedBy key ts t1 y1).mp h1
+  obtain ⟨m2, rfl⟩ := (mem_typedBy key ts t2 y2).mp h2
+  constructor
+  · exact typeIndex_inj _ _ _ (key_mem_uniq key ts t1 m1) (key_mem_uniq key ts t2 m2)
+  · intro e; rw [e]
+
+theorem typedBy_coeff {γ} (params : κ → γ) (t : List Nat) (y : Nat) (h : (t, y) ∈ typedBy key ts) :
+    ((dedup (ts.map key)).map params)[y]? = some (params (key t)) := by
+  obtain ⟨m, rfl⟩ := (mem_typedBy key ts t y).mp h
+  rw [List.getElem?_map, typeIndex_get _ _ (key_mem_uniq key ts t m)]; rfl
+
+theorem typedBy_onto (k : Nat) (hk : k < (dedup (ts.map key)).length) : ∃ t, (t, k) ∈ typedBy key ts := by
+  have hm : (dedup (ts.map key))[k] ∈ ts.map key := (mem_dedup _ _).mp (List.getElem_mem hk)
+  obtain ⟨t, ht, e⟩ := List.mem_map.mp hm
+  refine ⟨t, (mem_typedBy key ts t k).mpr ⟨ht, ?_⟩⟩
+  rw [e, typeIndex_getElem_nodup _ (nodup_dedup _) k hk]
+
+theorem typedBy_lt (t : List Nat) (y : Nat) (h : (t, y) ∈ typedBy key ts) : y < (dedup (ts.map key)).length := by
+  obtain ⟨m, rfl⟩ := (mem_typedBy key ts t y).mp h
+  exact typeIndex_lt _ _ (key_mem_uniq key ts t m)
+
+end typing
+
+/-! ### exclusion -/
+
+theorem allInSet_iff (s t : List Nat) : allInSet s t = true ↔ ∀ a ∈ t, a ∈ s := by
+  simp [allInSet, List.all_eq_true]
+
+/-- the exclusion set applies: it is given and has at least `arity` distinct members -/
+def Excludes (arity : Nat) (excl : Option (List Nat)) (t : List Nat) : Prop :=
+  ∃ s, excl = some s ∧ (dedup s).length ≥ arity ∧ ∀ a ∈ t, a ∈ s
+
+instance (arity : Nat) (excl : Option (List Nat)) (t : List Nat) : Decidable (Excludes arity excl t) := by
+  unfold Excludes
+  cases excl with
+  | none => exact isFalse (by rintro ⟨s, h, _⟩; cases h)
+  | some s =>
+    by_cases h : (dedup s).length ≥ arity ∧ ∀ a ∈ t, a ∈ s
+    · exact isTrue ⟨s, rfl, h.1, h.2⟩
+    · exact isFalse (by rintro ⟨s', e, h1, h2⟩; cases e; exact h ⟨h1, h2⟩)
+
+theorem applyExclude_eq_filter (arity : Nat) (excl : Option (List Nat)) (terms : List (List Nat)) :
+    applyExclude arity excl terms = terms.filter (fun t => !decide (Excludes arity excl t)) := by
+  unfold applyExclude
+  cases excl with
+  | none =>
+    have : ∀ t : List Nat, ¬ Excludes arity none t := by rintro t ⟨s, h, _⟩; cases h
+    simp only [this, decide_false, Bool.not_false]
+    exact (List.filter_eq_self.mpr (fun _ _ => rfl)).symm
+  | some s =>
+    simp only
+    by_cases hl : (dedup s).length ≥ arity
+    · simp only [hl, if_true, deleteIfAllInSet]
+      apply List.filter_congr
+      intro t _
+      congr 1
+      rw [Bool.eq_iff_iff, allInSet_iff, decide_eq_true_eq]
+      constructor
+      · intro h; exact ⟨s, rfl, hl, h⟩
+      · rintro ⟨s', e, _, h⟩; cases e; exact h
+    · have : ∀ t : List Nat, ¬ Excludes arity (some s) t := by
+        rintro t ⟨s', e, h1, _⟩; cases e; exact hl h1
+      simp only [hl, if_false, this, decide_false, Bool.not_false]
+      exact (List.filter_eq_self.mpr (fun _ _ => rfl)).symm
+
+/-! ### the drop loop of assign_dihedral_types -/
+
+theorem foldl_dropStep (dparams : DKey → DParam) (L : List DKey) (st : List (List Nat × DKey) × List DKey) :
+    L.foldl (dropStep dparams) st =
+      (st.1.filter (fun p => !(L.contains p.2 && (dparams p.2).isUndefined)),
+       st.2.filter (fun k => !(L.contains k && (dparams k).isUndefined))) := by
+  induction L generalizing st with
+  | nil =>
+    simp only [List.foldl_nil, List.contains_nil, Bool.false_and, Bool.not_false]
+    rw [List.filter_eq_self.mpr (fun _ _ => rfl), List.filter_eq_self.mpr (fun _ _ => rfl)]
+  | cons d L ih =>
+    rw [List.foldl_cons, ih]
+    unfold dropStep
+    by_cases hu : (dparams d).isUndefined = true
+    · simp only [hu, if_true, List.filter_filter]
+      congr 1
+      · apply List.filter_congr; intro p _
+        by_cases e : p.2 = d
+        · simp [e, hu]
+        · have : (d == p.2) = false := by simp [Ne.symm e]
+          simp [e]
+      · apply List.filter_congr; intro k _
+        by_cases e : k = d
+        · simp [e, hu]
+        · have : (d == k) = false := by simp [Ne.symm e]
+          simp [e]
+    · simp only [hu, Bool.false_eq_true, if_false]
+      congr 1
+      · apply List.filter_congr; intro p _
+        by_cases e : p.2 = d
+        · simp [e, hu]
+        · have : (d == p.2) = false := by simp [Ne.symm e]
+          simp [e]
+      · apply List.filter_congr; intro k _
+        by_cases e : k = d
+        · simp [e, hu]
+        · have : (d == k) = false := by simp [Ne.symm e]
+          simp [e]
+
+theorem dropLoop_eq (dparams : DKey → DParam) (key : List Nat → DKey) (ts : List (List Nat)) :
+    dropLoop dparams (dedup (ts.map key)) (ts.zip (ts.map key), dedup (ts.map key)) =
+      ((ts.filter (fun t => !(dparams (key t)).isUndefined)).map (fun t => (t, key t)),
+       dedup ((ts.filter (fun t => !(dparams (key t)).isUndefined)).map key)) := by
+  unfold dropLoop
+  rw [foldl_dropStep, zip_map_self]
+  congr 1
+  · rw [List.filter_map]
+    congr 1
+    apply List.filter_congr
+    intro t ht
+    have : key t ∈ dedup (ts.map key) := key_mem_uniq key ts t ht
+    simp [Function.comp, this]
+  · have h1 : (ts.filter (fun t => !(dparams (key t)).isUndefined)).map key
+        = (ts.map key).filter (fun k => !(dparams k).isUndefined) := by
+      rw [List.filter_map]; rfl
+    rw [h1, dedup_filter]
+    apply List.filter_congr
+    intro k hk
+    have : k ∈ dedup (ts.map key) := hk
+    simp [this]
+
+theorem map_fst_pair {α β} (f : α → β) (l : List α) : (l.map (fun t => (t, f t))).map (·.1) = l := by
+  induction l with
+  | nil => rfl
+  | cons x xs ih => simp [ih]
+
+theorem assignDihedralsCore_ok (uff : Nat → String) (dparams : DKey → DParam) (excl : Option (List Nat))
+    (terms : List (List Nat)) (r : Assigned) (h : assignDihedralsCore uff dparams excl terms = .ok r) :
+    (∀ t ∈ applyExclude 4 excl terms, dparams (dihedralKey uff terms t) ≠ .unsupported) ∧
+    r.terms = (applyExclude 4 excl terms).filter (fun t => !(dparams (dihedralKey uff terms t)).isUndefined) ∧
+    r.terms.zip r.types = typedBy (dihedralKey uff terms) r.terms ∧
+    r.coeffs = (dedup (r.terms.map (dihedralKey uff terms))).map (fun k => (dparams k).toText) ∧
+    r.types.length = r.terms.length := by
+  unfold assignDihedralsCore at h
+  simp only at h
+  split at h
+  · cases h
+  · rename_i hns
+    have hr := Except.ok.inj h
+    rw [dropLoop_eq] at hr
+    subst hr
+    simp only [map_fst_pair, List.length_map]
+    refine ⟨?_, trivial, ?_, trivial, trivial⟩
+    · intro t ht e
+      apply hns
+      refine List.any_eq_true.mpr ⟨_, key_mem_uniq (dihedralKey uff terms) _ t ht, ?_⟩
+      simp [e]
+    · rw [List.map_map, ← zip_typed, List.map_map]
+      rfl
+
+/-! ### normal forms of the assign functions -/
+
+/-- the terms of a result paired with their type ids -/
+def typed (r : Assigned) : List (List Nat × Nat) := r.terms.zip r.types
+
+theorem assignSimple_normal (arity : Nat) (uff : Nat → String) (params : List String → String)
+    (excl : Option (List Nat)) (terms : List (List Nat)) :
+    let r := assignSimple arity uff params excl terms
+    r.terms = applyExclude arity excl terms ∧
+    typed r = typedBy (seqKey uff) r.terms ∧
+    r.coeffs = (dedup (r.terms.map (seqKey uff))).map params ∧
+    r.types.length = r.terms.length := by
+  refine ⟨rfl, ?_, rfl, ?_⟩
+  · exact zip_typed (seqKey uff) _
+  · simp [assignSimple]
+
+theorem checkTerms_ok_iff (arity : Nat) (uff : List String) (terms : List (List Nat)) :
+    checkTerms arity uff terms = .ok () ↔
+      (∀ t ∈ terms, t.length = arity) ∧ (∀ t ∈ terms, ∀ a ∈ t, a < uff.length) := by
+  unfold checkTerms
+  by_cases h1 : terms.any (fun t => t.length != arity) = true
+  · simp only [h1, if_true]
+    constructor
+    · intro h; cases h
+    · rintro ⟨h, _⟩
+      obtain ⟨t, ht, hne⟩ := List.any_eq_true.mp h1
+      simp [h t ht] at hne
+  · have h1' : ∀ t ∈ terms, t.length = arity := by
+      intro t ht
+      apply Classical.byContradiction
+      intro hne
+      exact h1 (List.any_eq_true.mpr ⟨t, ht, by simpa using hne⟩)
+    by_cases h2 : terms.any (fun t => t.any (fun a => decide (a ≥ uff.length))) = true
+    · simp only [h1, h2, if_true]
+      constructor
+      · intro h; cases h
+      · rintro ⟨_, h⟩
+        obtain ⟨t, ht, hany⟩ := List.any_eq_true.mp h2
+        obtain ⟨a, ha, hge⟩ := List.any_eq_true.mp hany
+        have := h t ht a ha
+        simp at hge; omega
+    · simp only [h1, h2]
+      refine ⟨fun _ => ⟨h1', ?_⟩, fun _ => rfl⟩
+      intro t ht a ha
+      apply Classical.byContradiction
+      intro hge
+      exact h2 (List.any_eq_true.mpr ⟨t, ht, List.any_eq_true.mpr ⟨a, ha, by simpa using hge⟩⟩)
+
+theorem assignBonds_eq (uff : List String) (params : List String → String) (excl : Option (List Nat))
+    (terms : List (List Nat)) (r : Assigned) (h : assignBonds uff params excl terms = .ok r) :
+    r = assignSimple 2 (uffFn uff) params excl terms ∧ checkTerms 2 uff terms = .ok () := by
+  unfold assignBonds at h
+  cases hc : checkTerms 2 uff terms with
+  | error e => rw [hc] at h; cases h
+  | ok u => rw [hc] at h; cases u; exact ⟨(Except.ok.inj h).symm, rfl⟩
+
+theorem assignAngles_eq (uff : List String) (params : List String → String) (excl : Option (List Nat))
+    (terms : List (List Nat)) (r : Assigned) (h : assignAngles uff params excl terms = .ok r) :
+    r = assignSimple 3 (uffFn uff) params excl terms ∧ checkTerms 3 uff terms = .ok () := by
+  unfold assignAngles at h
+  cases hc : checkTerms 3 uff terms with
+  | error e => rw [hc] at h; cases h
+  | ok u => rw [hc] at h; cases u; exact ⟨(Except.ok.inj h).symm, rfl⟩
+
+theorem assignDihedrals_eq (uff : List String) (dparams : DKey → DParam) (excl : Option (List Nat))
+    (terms : List (List Nat)) (r : Assigned) (h : assignDihedrals uff dparams excl terms = .ok r) :
+    assignDihedralsCore (uffFn uff) dparams excl terms = .ok r ∧ checkTerms 4 uff terms = .ok () := by
+  unfold assignDihedrals at h
+  cases hc : checkTerms 4 uff terms with
+  | error e => rw [hc] at h; cases h
+  | ok u => rw [hc] at h; cases u; exact ⟨h, rfl⟩
+
+theorem seqKey_eq_iff (uff : Nat → String) (t u : List Nat) :
+    seqKey uff t = seqKey uff u ↔ t.map uff = u.map uff ∨ t.map uff = (u.map uff).reverse :=
+  typekey_eq_iff _ _
+
+/-! ### renaming of atoms -/
+
+section rename
+variable (σ : Nat → Nat) (hσ : ∀ a b, σ a = σ b → a = b)
+include hσ
+
+theorem allInSet_rename (s t : List Nat) : allInSet (s.map σ) (t.map σ) = allInSet s t := by
+  rw [Bool.eq_iff_iff, allInSet_iff, allInSet_iff]
+  constructor
+  · intro h a ha
+    obtain ⟨b, hb, e⟩ := List.mem_map.mp (h (σ a) (List.mem_map.mpr ⟨a, ha, rfl⟩))
+    exact hσ _ _ e ▸ hb
+  · intro h a ha
+    obtain ⟨b, hb, rfl⟩ := List.mem_map.mp ha
+    exact List.mem_map.mpr ⟨b, h b hb, rfl⟩
+
+theorem excludes_rename (arity : Nat) (excl : Option (List Nat)) (t : List Nat) :
+    Excludes arity (excl.map (·.map σ)) (t.map σ) ↔ Excludes arity excl t := by
+  unfold Excludes
+  cases excl with
+  | none => simp
+  | some s =>
+    have hl : (dedup (s.map σ)).length = (dedup s).length := by
+      rw [dedup_map_inj σ s (fun a _ b _ e => hσ a b e), List.length_map]
+    have ha := allInSet_rename σ hσ s t
+    rw [Bool.eq_iff_iff, allInSet_iff, allInSet_iff] at ha
+    constructor
+    · rintro ⟨s', e, h1, h2⟩
+      cases e
+      exact ⟨s, rfl, hl ▸ h1, ha.mp h2⟩
+    · rintro ⟨s', e, h1, h2⟩
+      cases e
+      exact ⟨s.map σ, rfl, hl ▸ h1, ha.mpr h2⟩
+
+theorem applyExclude_rename (arity : Nat) (excl : Option (List Nat)) (terms : List (List Nat)) :
+    applyExclude arity (excl.map (·.map σ)) (terms.map (·.map σ)) = (applyExclude arity excl terms).map (·.map σ) := by
+  rw [applyExclude_eq_filter, applyExclude_eq_filter, List.filter_map]
+  congr 1
+  apply List.filter_congr
+  intro t _
+  simp only [Function.comp]
+  congr 1
+  rw [Bool.eq_iff_iff, decide_eq_true_eq, decide_eq_true_eq]
+  exact excludes_rename σ hσ arity excl t
+
+theorem applyExclude_rename_perm (arity : Nat) (excl : Option (List Nat)) (terms terms' : List (List Nat))
+    (hperm : terms'.Perm (terms.map (·.map σ))) :
+    (applyExclude arity (excl.map (·.map σ)) terms').Perm ((applyExclude arity excl terms).map (·.map σ)) := by
+  rw [← applyExclude_rename σ hσ, applyExclude_eq_filter, applyExclude_eq_filter]
+  exact hperm.filter _
+
+theorem sameCentral_rename (u t : List Nat) (hu : u.length = 4) (ht : t.length = 4) :
+    centralKey (u.map σ) = centralKey (t.map σ) ↔ centralKey u = centralKey t := by
+  match u, hu with
+  | [u0, u1, u2, u3], _ =>
+    match t, ht with
+    | [t0, t1, t2, t3], _ =>
+      simp only [centralKey, List.map_cons, List.getD_cons_succ, List.getD_cons_zero]
+      rw [typekey_eq_iff, typekey_eq_iff]
+      simp only [List.reverse_cons, List.reverse_nil, List.nil_append, List.cons_append, List.cons.injEq, and_true]
+      constructor
+      · rintro (⟨h1, h2⟩ | ⟨h1, h2⟩)
+        · exact Or.inl ⟨hσ _ _ h1, hσ _ _ h2⟩
+        · exact Or.inr ⟨hσ _ _ h1, hσ _ _ h2⟩
+      · rintro (⟨h1, h2⟩ | ⟨h1, h2⟩)
+        · exact Or.inl ⟨by rw [h1], by rw [h2]⟩
+        · exact Or.inr ⟨by rw [h1], by rw [h2]⟩
+
+theorem torsionCount_rename (terms terms' : List (List Nat)) (hperm : terms'.Perm (terms.map (·.map σ)))
+    (har : ∀ u ∈ terms, u.length = 4) (t : List Nat) (ht : t.length = 4) :
+    torsionCount terms' (t.map σ) = torsionCount terms t := by
+  unfold torsionCount
+  rw [(hperm.map centralKey).count_eq, List.map_map, List.count_eq_length_filter, List.count_eq_length_filter,
+    List.filter_map, List.filter_map, List.length_map, List.length_map]
+  congr 1
+  apply List.filter_congr
+  intro u hu
+  simp only [Function.comp]
+  rw [Bool.eq_iff_iff, beq_iff_eq, beq_iff_eq]
+  exact sameCentral_rename σ hσ u t (har u hu) ht
+
+end rename
+
+theorem seqKey_rename (σ : Nat → Nat) (uff uff' : Nat → String) (huff : ∀ a, uff' (σ a) = uff a) (t : List Nat) :
+    seqKey uff' (t.map σ) = seqKey uff t := by
+  unfold seqKey
+  rw [List.map_map]
+  congr 1
+  apply List.map_congr_left
+  intro a _; exact huff a
+
+theorem mem_typed_of_mem {κ : Type} [DecidableEq κ] (key : List Nat → κ) (ts : List (List Nat)) (t : List Nat) (h : t ∈ ts) :
+    ∃ y, (t, y) ∈ typedBy key ts :=
+  ⟨_, (mem_typedBy key ts t _).mpr ⟨h, rfl⟩⟩
+
+/-! ### retype -/
+
+theorem sortedTypes_perm (tbl : List (String × Dec)) (nt : List String) : (sortedTypes tbl nt).Perm (dedup nt) := by
+  unfold sortedTypes
+  exact (List.mergeSort_perm _ _).trans (List.mergeSort_perm _ _)
+
+theorem lookup_of_index (tbl : List (String × Dec)) (e : String)
+    (h : (ptableIndex tbl e).isNone = false) : ∃ d, lookup tbl e = some d := by
+  unfold ptableIndex at h
+  induction tbl with
+  | nil => simp [indexOf?] at h
+  | cons p rest ih =>
+    obtain ⟨k, v⟩ := p
+    by_cases e' : k = e
+    · exact ⟨v, by simp [lookup, e']⟩
+    · simp only [List.map_cons, indexOf?, e', if_false, Option.isNone_map] at h
+      obtain ⟨d, hd⟩ := ih h
+      exact ⟨d, by simp [lookup, e', hd]⟩
+
+theorem retype_ok (tbl : List (String × Dec)) (pairText : String → String) (nt : List String) (r : Retyped)
+    (h : retype tbl pairText nt = .ok r) :
+    (∀ s ∈ nt, (ptableIndex tbl (elementOf s)).isNone = false) ∧
+    r.labels = sortedTypes tbl nt ∧ r.elements = r.labels.map elementOf ∧
+    r.masses = r.elements.map (fun e => ((lookup tbl e).map Dec.toRat).getD 0) ∧
+    r.atomTypes = nt.map (typeIndex r.labels) ∧ r.pairCoeffs = r.labels.map pairText := by
+  unfold retype at h
+  split at h
+  · cases h
+  · rename_i hn
+    have := Except.ok.inj h
+    subst this
+    refine ⟨?_, rfl, rfl, rfl, rfl, rfl⟩
+    intro s hs
+    cases hc : (ptableIndex tbl (elementOf s)).isNone with
+    | false => rfl
+    | true => exact absurd (List.any_eq_true.mpr ⟨s, hs, hc⟩) hn
 
 end Mofun.Terms
